@@ -116,6 +116,7 @@ func (s RNS) Events(env world.Env, mm mc.Model) []string {
 			add("Bid:%s:%s:7ujkl", x, n)
 			if s.Prop == "C09" {
 				add("Bid:%s:%s:5uatom", x, n)
+				add("BidFail:%s:%s:7ujkl", x, n) // one transaction: this bid, then a message that fails
 			}
 			add("Cancel:%s:%s", x, n)
 			for _, y := range others(x) {
@@ -141,6 +142,8 @@ func (s RNS) Events(env world.Env, mm mc.Model) []string {
 		} else {
 			add("Init:%s:-", x)
 			add("Register:%s:Alpha.jkl", x)
+			add("Register:%s:al pha.jkl", x) // a space inside the label
+			add("Register:%s:e xp.jkl", x)
 			add("List:%s:Exp.jkl:5ujkl", x)
 			add("Buy:%s:EXP.jkl", x)
 			add("Delist:%s:Exp.jkl", x)
@@ -244,7 +247,16 @@ func (s RNS) Apply(env world.Env, mm mc.Model, ev string) mc.Step {
 	signer := w.A(p[1]).Bech
 	mp := append([]string{}, p...)
 	mp[2] = rawName
-	res := env.Deliver(s.msgFor(w, mp))
+	var res world.TxResult
+	if p[0] == "BidFail" {
+		bid := append([]string{"Bid"}, mp[1:]...)
+		res = env.DeliverMulti([]sdk.Msg{s.msgFor(w, bid), rnstypes.NewMsgCancelBid(signer, "nosuchname.jkl")})
+		if res.OK() {
+			panic("harness: a transaction whose second message cancels a bid that does not exist was accepted")
+		}
+	} else {
+		res = env.Deliver(s.msgFor(w, mp))
+	}
 	after := rnsSnapshot(w, env.Ctx())
 	balAfter := w.Balances(env.Ctx())
 	d := world.BalDiff(balBefore, balAfter)
